@@ -126,6 +126,14 @@ def gen_case(ctx, g, focus=None):
                 A = [row[:r.randint(1, len(row))] if r.random() < 0.4 else row for row in A]      # ragged
         else:
             qa['kind'] = ('select', g.items(cx) + ([('expr', ('fld', 'b', 0)), ('starb',)] if (join and join['kind'] == 'left' and r.random() < 0.6) else []))
+            if join and join['kind'] != 'strict' and r.random() < 0.2:
+                # null CELLS (list tables, e.g. the output of an earlier LEFT JOIN) in key columns: a null key is a key like any
+                # other - it pairs with null keys of B, or with nothing - and never "a missing field". (null arithmetic is not
+                # language-neutral: bare fields and star forms only, no WHERE)
+                A = [[(None if r.random() < 0.3 else x) for x in row] for row in A]
+                B = [[(None if r.random() < 0.3 else x) for x in row] for row in B]
+                qa['where'] = None
+                qa['kind'] = ('select', [('expr', ('fld', 'a', r.randint(0, na - 1))), r.choice([('star',), ('starb',), ('expr', ('NR',))])])
     elif shape < 0.6:
         qa['kind'] = ('select', g.items(cx, max_items=2))
         kind = r.choice(['str', 'int'])
@@ -156,6 +164,13 @@ def gen_case(ctx, g, focus=None):
         if r.random() < 0.75:
             qa['group'] = [('fld', 'a', 0)] if r.random() < 0.7 else [('fld', 'a', 0), ('len', ('fld', 'a', 0))]
         qa['top'] = r.choice([None, None, 1])
+        if r.random() < 0.15 and A:
+            # a non-aggregate column over a field that some records lack (null): constant within a group only if ALL its
+            # records agree, null included - null first and a value later is NOT constant
+            extra = numcol + 1
+            vals = r.choice([['x'], ['x', 'y']])
+            A = [row + ([r.choice(vals)] if r.random() < 0.6 else []) for row in A]
+            items.insert(r.randint(0, len(items)), ('expr', ('fld', 'a', extra)))
     else:
         cx2 = dict(cx, update=True)
         asg = [(r.randint(0, na - 1 + (1 if r.random() < 0.08 else 0)), g.str_expr(cx2, 1) if r.random() < 0.7 else ('fld', 'a', r.randint(0, na - 1))) for _ in range(r.randint(1, 3))]
